@@ -430,7 +430,11 @@ def run(ctx):
         raise AnalysisError('%s builds its list of names in a form this rule cannot interpret: %s' % (fn_.name, e_))
       return set(got_) if isinstance(got_, set) else set()
     cont = spec_content(pn)
-    slices = [x for r in rv for x in ast.walk(r) if isinstance(x, ast.Subscript) and isinstance(x.slice, ast.Slice)]
+    rv_x = []
+    for r in rv:
+      ds_ = [a_.value for a_ in walk_local(pn.node) if isinstance(a_, ast.Assign) and len(a_.targets) == 1 and isinstance(r, ast.Name) and u(a_.targets[0]) == r.id]
+      rv_x.append(ds_[0] if len(ds_) == 1 else r)
+    slices = [x for r in rv_x for x in ast.walk(r) if isinstance(x, ast.Subscript) and isinstance(x.slice, ast.Slice)]
     if 'KWONLY' in cont or 'VARARGS' in cont or 'VARKW' in cont:
       okpn = False
     elif 'ARGS' in cont and len(slices) == 1 and slices[0].slice.lower is None and slices[0].slice.step is None \
